@@ -39,6 +39,13 @@ func NewEnv(datagram bool) *Env {
 	return e
 }
 
+// SetDialGate replaces the dial gate (nil = dials complete at once); dials already waiting keep their gate.
+func (e *Env) SetDialGate(g chan struct{}) {
+	e.mu.Lock()
+	e.DialGate = g
+	e.mu.Unlock()
+}
+
 func (e *Env) Conns() []*fakenet.Conn {
 	e.mu.Lock()
 	defer e.mu.Unlock()
